@@ -255,8 +255,8 @@ def run(out: Outcome) -> None:
     for _ in range(20 if thorough else 6):
         w = rng.choice([2, 4, 6, 8])
         ref1, ref2 = sample(rng, rng.choice([6, 8, 12])), sample(rng, rng.choice([5, 9, 10, 15]))
-        stream = sample(rng, 3 * w + 5)
-        cut = rng.randint(1, 2 * w)
+        stream = sample(rng, 5 * w + 8)
+        cut = rng.randint(1, 2 * w) if _ % 2 else rng.randint(2 * w, 3 * w + 2)      # (half of the cases: the first reference has been TESTED against many windows before the second fit)
         inc = IncrementalKSTest(window_size=w)
         inc.fit(X=np.array(ref1))
         for v in stream[:cut]:
